@@ -73,7 +73,8 @@ theorem honest_server_resumes (content : Bytes) (good : Bytes → Bool) (hg : go
   have hne : content.length ≠ k := by omega
   have hk0 : k ≠ 0 := by omega
   have hnlt : ¬ content.length < k := by omega
+  have hc0 : content.length ≠ 0 := by omega
   simp [install, probStatus, download, downloadLoop, downloadFile, downloadResume, remoteSize, request, honest,
-    h0, h1, hg, hlen, hne, hk0, hk2, hnlt, List.take_append_drop]
+    h0, h1, hg, hlen, hne, hk0, hk2, hnlt, hc0, List.take_append_drop]
 
 end Kapture.C17
